@@ -17,7 +17,7 @@ CONSTANTS
   ExtraKinds = {"or", "and"}
   GIdPool <- GIdPoolDef
   TouchKinds <- TouchKindsDef
-  GMaxAtk = 2
+  GMaxAtk <- GMaxAtkDef
   GOpsOn <- GOpsDef
 CONSTRAINT GBound
 INVARIANT EmitH
